@@ -35,6 +35,11 @@ def run_jobs(R, jobs, procs=None):
     procs = procs or min(len(jobs), max(1, (os.cpu_count() or 4) - 2))
     if not jobs:
         return
+    # warm the shared caches in the parent (MIR dumps, replay binaries) so that workers only read them
+    from mirsmt import native
+    env.dump_mir("lib")
+    for prof in ("dev", "release"):
+        native.build(prof)
     ctx = mp.get_context("fork")
     with ctx.Pool(procs, maxtasksperchild=1) as pool:
         for out in pool.imap_unordered(_worker, jobs):
